@@ -227,6 +227,26 @@ func (ss *segmentStack) ensureFullySorted() {
 	}
 }
 
+// hasMergeOperations returns true when any segment of the stack or of
+// its child stacks holds (or might hold) an unresolved merge operand.
+func (ss *segmentStack) hasMergeOperations() bool {
+	if ss == nil {
+		return false
+	}
+	for _, seg := range ss.a {
+		a, ok := seg.(*segment)
+		if !ok || a.totOperationMerge > 0 {
+			return true
+		}
+	}
+	for _, childSegStack := range ss.childSegStacks {
+		if childSegStack.hasMergeOperations() {
+			return true
+		}
+	}
+	return false
+}
+
 func (ss *segmentStack) isEmpty() bool {
 	if len(ss.a) > 0 {
 		return false
